@@ -33,6 +33,51 @@ def wrap(rng, leaf):
     return P("Result", leaf, STR)
 
 
+# one type expression that mentions BOTH a mapped plain name and a project type (class of seeded/C18-11: a dependency
+# walk that drops the whole field when any of its names is mapped loses the project type)
+COMBOS = ["map_key", "map_val", "tuple", "tuple_rev", "vec_tuple", "map_vec", "result", "opt_tuple", "nested_map"]
+
+
+def combo(kind, mapped, proj):
+    if kind == "map_key":
+        return P("HashMap", mapped, proj)
+    if kind == "map_val":
+        return P("HashMap", STR, ["t", [mapped, proj]])
+    if kind == "tuple":
+        return ["t", [mapped, proj]]
+    if kind == "tuple_rev":
+        return ["t", [proj, I32, mapped]]
+    if kind == "vec_tuple":
+        return P("Vec", ["t", [mapped, proj]])
+    if kind == "map_vec":
+        return P("HashMap", mapped, P("Vec", proj))
+    if kind == "result":
+        return P("Result", ["t", [proj, mapped]], STR)
+    if kind == "opt_tuple":
+        return P("Option", ["t", [P("Vec", mapped), P("Option", proj)]])
+    if kind == "nested_map":
+        return P("HashMap", STR, P("HashMap", mapped, proj))
+    raise ValueError(kind)
+
+
+def chain_cases():
+    """deterministic: Root (parameter) -> field combining the mapped external name with Inner -> Inner -> field combining it with
+    Leaf; Inner and Leaf are reachable ONLY through such fields. Every combination shape x mode x (external name mapped | a table that
+    maps only an absent name)."""
+    out = []
+    for i, kind in enumerate(COMBOS):
+        for mode in ("none", "zod"):
+            for table in ({"Uuid": ["string", "number", "boolean"][i % 3]}, {"Uuid": "string", "PathBuf": "string"}, {"Absent": "string"}):
+                k2 = COMBOS[(i + 3) % len(COMBOS)]
+                structs = [["Root", [combo(kind, P("Uuid"), P("Inner")), STR]],
+                           ["Inner", [I64, combo(k2, P("Uuid"), P("Leaf"))]],
+                           ["Leaf", [P("Option", P("Uuid"))]],
+                           ["Unused", [P("Leaf")]]]
+                out.append({"what": "decl-model", "structs": structs, "params": [P("Root")], "ret": STR, "channels": [], "events": [],
+                            "table": table, "mode": mode, "shape": kind + "+" + k2})
+    return out
+
+
 def gen_case(rng, i):
     k = rng.randint(2, 5)
     names = ["S%d" % j for j in range(k)]
@@ -42,7 +87,10 @@ def gen_case(rng, i):
         fields = []
         for _ in range(rng.randint(0, 2)):
             leaf = P(rng.choice(pool)) if rng.random() < 0.7 else rng.choice([STR, I64, BOOL])
-            fields.append(wrap(rng, leaf))
+            if rng.random() < 0.35:      # a mapped external name and a project type in ONE field type
+                fields.append(combo(rng.choice(COMBOS), P(rng.choice(EXTERNAL)), P(rng.choice(names))))
+            else:
+                fields.append(wrap(rng, leaf))
         structs.append([n, fields])
     params = [wrap(rng, P(rng.choice(pool))) for _ in range(rng.randint(0, 2))]
     ret = wrap(rng, P(rng.choice(pool))) if rng.random() < 0.6 else STR
@@ -73,16 +121,21 @@ def source(c):
 
 
 def run_one(c):
+    """the project generated with the table and - same project - without any table"""
+    res = {}
     with vlib.Sandbox("c18d") as sb:
         sb.write("proj/src-tauri/src/lib.rs", source(c))
-        cfg = {"project_path": sb.path("proj/src-tauri"), "output_path": sb.path("proj", "out"), "validation_library": c["mode"],
-               "type_mappings": c["table"]}
-        sb.write("cfg.json", json.dumps(cfg))
-        rc, log = sb.cli(["generate", "-c", sb.path("cfg.json"), "--force"])
-        files = {k: v.decode("utf-8", "replace") for k, v in sb.snapshot(os.path.join("proj", "out")).items()
-                 if v is not None and k.endswith(".ts")}
-    names = sorted(set(re.findall(r"export (?:interface|type|const) (\w+)", files.get("types.ts", ""))))
-    return {"exit": rc, "log_tail": log[-200:] if rc else "", "declared": names}
+        for tag, table in (("with", c["table"]), ("without", None)):
+            cfg = {"project_path": sb.path("proj/src-tauri"), "output_path": sb.path("proj", "out-" + tag), "validation_library": c["mode"]}
+            if table is not None:
+                cfg["type_mappings"] = table
+            sb.write("cfg-%s.json" % tag, json.dumps(cfg))
+            rc, log = sb.cli(["generate", "-c", sb.path("cfg-%s.json" % tag), "--force"])
+            files = {k: v.decode("utf-8", "replace") for k, v in sb.snapshot(os.path.join("proj", "out-" + tag)).items()
+                     if v is not None and k.endswith(".ts")}
+            res[tag] = (rc, log, sorted(set(re.findall(r"export (?:interface|type|const) (\w+)", files.get("types.ts", "")))))
+    rc, log, names = res["with"]
+    return {"exit": rc or res["without"][0], "log_tail": log[-200:] if rc else "", "declared": names, "declared_without_table": res["without"][2]}
 
 
 def evaluate(cases):
@@ -91,22 +144,28 @@ def evaluate(cases):
     for c, o in zip(cases, obs):
         sexps.append(sx([c["mode"] == "zod", [[k, v] for k, v in sorted(c["table"].items())],
                          [[n, [T.sx_ty(f) for f in fs]] for n, fs in c["structs"]],
-                         [T.sx_ty(t) for t in c["params"] + [c["ret"]] + c["channels"] + c.get("events", [])], o["declared"]]))
+                         [T.sx_ty(t) for t in c["params"] + [c["ret"]] + c["channels"] + c.get("events", [])], o["declared"], o["declared_without_table"]]))
     res = vlib.run_runner("c18-declared", sexps)
     outs = []
-    for c, o, (model_names, clause_ok, in_class) in zip(cases, obs, res):
+    for c, o, (model_names, clause_ok, in_class, frame_ok) in zip(cases, obs, res):
         cand = set()
         for n, _ in c["structs"]:
             cand |= {n, n + "Schema"}
         seen = sorted(x for x in o["declared"] if x in cand)
         o["declared_project_types"] = seen
         o["model_declared_project_types"] = sorted(model_names)
+        o["only_with_table"] = sorted(set(o["declared"]) - set(o["declared_without_table"]))
+        o["only_without_table"] = sorted(set(o["declared_without_table"]) - set(o["declared"]))
+        o["decl_frame_ok"], o["decl_clause_ok"] = frame_ok, clause_ok
         corr = o["exit"] == 0 and seen == sorted(model_names)
-        okb = clause_ok == "true"
-        kf = "C18-4" if in_class == "true" else None
+        # property: (never declared) no key of the table is exported, and (frame, C18_declared_frame) the table changes
+        # nothing about the exported declarations: same set with and without it
+        okb = clause_ok == "true" and frame_ok == "true"
+        # C18-4 is the class of the first clause only; a broken frame is never covered by it
+        kf = "C18-4" if in_class == "true" and frame_ok == "true" else None
         outs.append(Outcome(c, corr, okb, kf=kf, detail=o, nontrivial=bool(seen)))
     return outs
 
 
 def cases_for(tier, rng):
-    return [gen_case(rng, i) for i in range(600 if tier == "thorough" else 120)]
+    return chain_cases() + [gen_case(rng, i) for i in range(600 if tier == "thorough" else 120)]
